@@ -41,8 +41,11 @@ class Inst:
         return " > ".join(self.chain)
 
 
+FORWARDED_BY_MUT_REF = ("core::iter::Iterator", "core::iter::DoubleEndedIterator", "core::iter::ExactSizeIterator")
+
+
 class Node:
-    __slots__ = ("gid", "inst", "bb", "data", "cleanup", "succs", "callee_inst", "preds", "closure_call")
+    __slots__ = ("gid", "inst", "bb", "data", "cleanup", "succs", "callee_inst", "preds", "closure_call", "deref_self")
 
     def __init__(self, gid, inst, bb, data):
         self.gid = gid
@@ -54,6 +57,7 @@ class Node:
         self.preds = []
         self.callee_inst = None
         self.closure_call = None
+        self.deref_self = False   # the call goes through core's forwarding impl for `&mut I` (Iterator & co.): the callee is I's own method on `*self`
 
     def where(self):
         t = self.data["term"]
@@ -91,6 +95,11 @@ class Graph:
                 return None
             nt = len(cands[0].get("trait_args", []))
             hit = tcx.find_impl(trait, gargs[:nt])
+            fwd = False
+            if hit is None and trait in FORWARDED_BY_MUT_REF and gargs and gargs[0].get("k") == "ref" and gargs[0].get("mut"):
+                # `impl<I: Iterator + ?Sized> Iterator for &mut I` (core): `(&mut it).next()` / `self.len()` with `self: &mut It` run It's own method
+                hit = tcx.find_impl(trait, [gargs[0]["to"]] + gargs[1:nt])
+                fwd = hit is not None
             if hit is None:
                 return None
             im, binds = hit
@@ -107,7 +116,9 @@ class Graph:
                 for g, a in zip(own, gargs[nt:]):
                     if g["kind"] != "lifetime":
                         cenv[g["name"]] = a
-                return fn, cenv, "impl"
+                return fn, cenv, "impl-fwd" if fwd else "impl"
+            if fwd:
+                return None
             # default method of a local trait
             fn = fx.fns.get(path)
             if fn is None:
@@ -205,6 +216,7 @@ class Graph:
             if self.inline_filter and not self.inline_filter(cfn, callee, inst):
                 continue
             node.callee_inst = self._instantiate(cfn, cenv, inst, node.gid, depth + 1, chain + (cp,))
+            node.deref_self = how == "impl-fwd"
         return inst
 
     # ------------------------------------------------------------------
